@@ -714,3 +714,44 @@ def _range_chunks_contract(target, key_props, tail_zero):
 
 SSI_slice_chunks = _range_chunks_contract(f"{BASIC}::SliceSlicesIntegers._slice_chunks", ["C02", "C03"], True)
 BT_slice_chunks = _range_chunks_contract("dask_array/_broadcast_to.py::BroadcastTo._slice_chunks", ["C02", "C03"], False)
+
+
+def _slice_1d_call_patterns(result, dim_shape, lengths, index, j, q):
+    import z3
+    sel = z3.Select(result.has, j)
+    return {"keys-are-blocks": [sel], "piece-count": [sel], "direction": [sel]}
+
+
+slice_1d__slice.call_patterns = staticmethod(_slice_1d_call_patterns)
+slice_1d__slice._contract.call_patterns = _slice_1d_call_patterns
+
+
+@contract(f"{UTILS}::new_blockdim", spec="slice-proof", props=["C12", "C13", "C03"])
+class new_blockdim__proof:
+    """the chunk sizes after slicing are, in output order, the numbers of positions the per-block pieces select:
+    entry t is nsel(piece of the t-th key) - keys ascending for a positive step, descending for a negative one"""
+    params = {"dim_shape": "int", "lengths": "seq", "index": "slice"}
+    ghosts = {"t": "int"}
+    result = "lseq"
+
+    def requires(dim_shape, lengths, index):
+        return S.And(S.slen(lengths) >= 1, S.chunking(lengths, dim_shape), norm_bounds(index, dim_shape))
+
+    def ensures(result, dim_shape, lengths, index, t, env=None, calls=None):
+        import z3
+        if env is None or not calls:
+            return {}
+        if not hasattr(env, "pairs"):
+            # the full-slice shortcut returns the input chunks unchanged
+            return {"full-slice-keeps-chunks": S.seq_equal(result, lengths)}
+        pairs = env.pairs          # SortedItemsV: increasing key sequence of the plan
+        d = calls[-1][2]           # the plan returned by _slice_1d (a callee under contract)
+        n = pairs.n
+        c = S.parts(index)[2]
+        neg = S.And(S.Not(S.is_none(c)), S.val(c, 1) < 0)
+        kt = S.If(neg, S.f_at(pairs.keys, n - 1 - t), S.f_at(pairs.keys, t))
+        piece = d.get(kt)
+        return {
+            "one-entry-per-key": S.slen(result) == n,
+            "entry-is-piece-length": S.Implies(S.And(0 <= t, t < n), S.at(result, t) == S.nsel(piece, S.at(lengths, kt))),
+        }
